@@ -265,6 +265,16 @@ func genWrites(r *Repo) (string, error) {
 	fmt.Fprintf(&sb, "def updateEdgeArgs : List String := %s\n", leanStrList(edgeArgs))
 	sb.WriteString("/-- `origin.field` of every assignment to a node field -/\n")
 	fmt.Fprintf(&sb, "def nodeFieldAssigns : List String := %s\n", leanStrList(assigns))
+	// by meaning: which fields of a node built in the same step are initialised by assignment is no fact; what matters is
+	// that every other assignment goes to a child slot of an updateEdge receiver
+	var notBuilt []string
+	for _, a := range assigns {
+		if !strings.HasPrefix(a, "built.") {
+			notBuilt = append(notBuilt, a)
+		}
+	}
+	sb.WriteString("/-- the assignments to a node field whose target was not built in the same step -/\n")
+	fmt.Fprintf(&sb, "def nodeFieldAssignsNotBuilt : List String := %s\n", leanStrList(notBuilt))
 	sb.WriteString("/-- origin of the argument of every writable.Add -/\n")
 	fmt.Fprintf(&sb, "def writableAdds : List String := %s\n", leanStrList(adds))
 	sb.WriteString("/-- origin of every slice of nodes that is mutated in place (index assignment, shifting append, clear, copy into, sort) -/\n")
